@@ -24,6 +24,22 @@ else:
             items.append((s, f'{V}/benign/{s}/patch.diff'))
 items = [i for i in items if flt in i[0]]
 
+
+def run_all(repo_dir, props):
+    """{prop: (exit code, [output lines])} from ONE model load (tools/check_all.py)"""
+    r = subprocess.run(['python3', f'{V}/tools/check_all.py', '--repo', repo_dir] + list(props), capture_output=True, text=True)
+    res, cur = {}, []
+    for l in r.stdout.splitlines():
+        if l.startswith('###RESULT '):
+            p, ex = l.split()[1], int(l.split('exit=')[1])
+            res[p] = (ex, cur)
+            cur = []
+        else:
+            cur.append(l)
+    for p in props:
+        res.setdefault(p, (2, ['ANALYSIS-ERROR check_all produced no result: ' + (r.stderr or '')[-200:]]))
+    return res
+
 def one(it):
     name, patch = it
     d = tempfile.mkdtemp(prefix='rf.', dir='/tmp')
@@ -34,11 +50,10 @@ def one(it):
         if r.returncode:
             return name, {'error': 'patch does not apply: ' + r.stderr.decode()[:200]}
         out = {}
-        for p in props:
-            r = subprocess.run([f'{V}/check', p, '--repo', f'{d}/r', '--no-evidence'], capture_output=True, text=True)
-            if r.returncode:
-                msgs = [l[:300] for l in r.stdout.splitlines() if l.startswith(('FINDING:', 'ANALYSIS-ERROR', '    key='))]
-                out[p] = {'exit': r.returncode, 'msgs': msgs[:8]}
+        for p, (code, lines) in run_all(f'{d}/r', props).items():
+            if code:
+                msgs = [l[:300] for l in lines if l.startswith(('FINDING:', 'ANALYSIS-ERROR', '    key='))]
+                out[p] = {'exit': code, 'msgs': msgs[:8]}
         return name, out
     finally:
         shutil.rmtree(d, ignore_errors=True)
